@@ -13,17 +13,17 @@ from .. import sp
 ID = "C08"
 META = {
     "technique": "runtime monitoring: icontract class invariant on Library + lock-step executable list model + atomicity monitor on ValueError, over bounded-exhaustive and random call histories",
-    "level_text": "All histories of add/remove/replace calls (39 call shapes over a 8-block universe with colliding keys) to depth k and random histories of depth 30 are executed on the real Library; after every call the icontract invariant checks the view equations and the partition, the list model checks identity/order/position/wrappers, and every call that raised ValueError must leave the observable state (incl. the order of `strings`) unchanged.",
+    "level_text": "All histories of add/remove/replace calls (39 call shapes over a 10-block universe with colliding keys) to depth k and random histories of depth 30 are executed on the real Library; after every call the icontract invariant checks the view equations and the partition, the list model checks identity/order/position/wrappers, and every call that raised ValueError must leave the observable state (incl. the order of `strings`) unchanged.",
     "level_note": "remove([..]) is a sequence of single removes; universe blocks are pairwise unequal so that list.remove-by-equality is unambiguous",
 }
-RULE = ("case = history (list of calls) over the universe {e(a), e'(a), e(b), s(a), s'(a), s(b), preamble, comment}; all histories to depth k plus "
+RULE = ("case = history (list of calls) over the universe {e(a), e'(a), e(b), field-less e(c), e'(c), s(a), s'(a), s(b), preamble, comment}; all histories to depth k plus "
         "random depth-30 histories; non-trivial = the history reaches a state with a duplicate wrapper or contains a raising call; "
         "distinct = distinct history")
 ASSUMPTIONS = ["block keys are not mutated while held", "K1 (add(..., fail_on_duplicate_key=True) raises after inserting) is a listed known finding"]
 MIN = {"library_invariant": (200000, 2000000), "model_step": (100000, 1000000), "atomicity_on_ValueError": (20000, 200000)}
 
-NAMES = ["ea", "e2a", "eb", "sa", "s2a", "sb", "p", "c"]
-REPLACE_PAIRS = [("ea", "e2a"), ("ea", "eb"), ("eb", "e2a"), ("sa", "s2a"), ("sa", "ea"), ("e2a", "ea"), ("p", "c"), ("c", "eb"), ("eb", "sa"), ("sa", "sb"), ("sb", "s2a")]
+NAMES = ["ea", "e2a", "eb", "e0c", "e2c", "sa", "s2a", "sb", "p", "c"]
+REPLACE_PAIRS = [("ea", "e2a"), ("ea", "eb"), ("eb", "e2a"), ("sa", "s2a"), ("sa", "ea"), ("e2a", "ea"), ("p", "c"), ("c", "eb"), ("eb", "sa"), ("sa", "sb"), ("sb", "s2a"), ("eb", "e2c"), ("p", "e0c")]
 
 
 def all_ops():
@@ -65,6 +65,8 @@ def universe():
         "ea": M.Entry("article", "a", [M.Field("t", "{1}")], raw="@article{a, t = {1}}", start_line=0),
         "e2a": M.Entry("book", "a", [M.Field("t", "{2}")], raw="@book{a, t = {2}}", start_line=1),
         "eb": M.Entry("article", "b", [M.Field("t", "{3}")], raw="@article{b, t = {3}}", start_line=2),
+        "e0c": M.Entry("misc", "c", [], raw="@misc{c}", start_line=8),
+        "e2c": M.Entry("book", "c", [M.Field("t", "{4}")], raw="@book{c, t = {4}}", start_line=9),
         "sa": M.String("a", "{x}", raw="@string{a = {x}}", start_line=3),
         "s2a": M.String("a", "{y}", raw="@string{a = {y}}", start_line=4),
         "sb": M.String("b", "{z}", raw="@string{b = {z}}", start_line=7),
@@ -78,7 +80,7 @@ def kind_of(name):
 
 
 def key_of(name):
-    return "b" if name in ("eb", "sb") else "a"
+    return "b" if name in ("eb", "sb") else "c" if name in ("e0c", "e2c") else "a"
 
 
 class Model:
